@@ -1,5 +1,6 @@
 """C15 failing-input search: per geometry the exact special sets (faces, edges, corners, apex, axis, wire,
-segment extension lines, r/r0 thresholds, phi limits) and their +-1,2,4 ulp and denormal neighbours,
+segment extension lines, r/r0 thresholds, phi limits, the apex line of wedges, the 5e-13 shell around CylinderSegment
+vertices and edges) and their +-1,2,4 ulp and denormal neighbours,
 zero-size / zero-excitation sources, distances up to 1e12 sizes.  Evaluated in watchdogged worker
 processes: a hang is reported with the batch that hung."""
 import json
@@ -63,6 +64,20 @@ def special_points(cls, kw, rng, nps):
             z = rng.choice(vals(h / 2) + [0.0, 0.4 * h, -0.4 * h])
             pts.append([abs(r) * np.cos(ph), abs(r) * np.sin(ph), z])
         pts += [[-5e-324, 0, 0.4 * h], [-5e-324, 0, -0.4 * h], [0, 0, 0.4 * h]]
+        # the apex line (axis) incl. its end points: for a wedge (r1 = 0) whose range does not contain azimuth 0 the surface mask
+        # missed it (arctan2(0, 0) = 0) and the end points met the unhandled case ids 111 / 121 / 131
+        pts += [[0.0, 0.0, h / 2], [0.0, 0.0, -h / 2], [0.0, 0.0, 0.3 * h], [0.0, 0.0, -0.1 * h]]
+        # 5e-13 (in units of r2) outside vertices and edges: inside the 1e-12 of `close` (determine_cases), formerly outside the
+        # wrapper's 1e-14 slabs - neither surface nor inside, unhandled case id 114 next to a vertex
+        e = 5e-13 * r2
+        for rv in ([r2, r1] if r1 else [r2]):
+            for p in (p1, p2):
+                a = np.radians(p)
+                for sg in (1, -1):
+                    pts.append([(rv + e) * np.cos(a), (rv + e) * np.sin(a), sg * (h / 2 + e)])
+            am = np.radians((p1 + p2) / 2)
+            pts.append([(rv + e) * np.cos(am), (rv + e) * np.sin(am), h / 2 + e])
+            pts.append([(rv + e) * np.cos(np.radians(p1)), (rv + e) * np.sin(np.radians(p1)), 0.2 * h])
     elif cls == "Sphere":
         R = kw["diameter"] / 2
         for c in vals(R):
@@ -96,6 +111,8 @@ def make_cases(ctx, n):
         nps = np.random.default_rng(rng.randrange(2**31))
         cls = CLASSES[i % len(CLASSES)]
         kw = params(cls, nps)
+        if cls == "CylinderSegment" and (i // len(CLASSES)) % 2 == 1 and kw["dimension"][4] - kw["dimension"][3] < 360:
+            kw["dimension"] = (0.0,) + tuple(kw["dimension"][1:])  # every second segment is a wedge without bore (apex line on the axis)
         variant = rng.choice(["plain", "plain", "zero-exc", "zero-size", "huge", "tiny"])
         exc = [k for k in kw if k in ("polarization", "current", "moment")][0]
         if variant == "zero-exc":
